@@ -168,7 +168,9 @@ def run(ctx):
         S = M.summary(p)
         if S.get("head_args"):
             txt = [absint.deep(p.state, a) for a in S["head_args"]]
-            okh = any(any(x and x[0] == "const" and x[1] == 200 for x in absint.walk_terms(a)) or absint.contains(a, ("init", (1, "." + M.status_f))) for a in txt)
+            # the status itself, or the part of the response that holds it (a sub-struct passed whole)
+            prefixes = [("init", (1,) + M.status_key[:k]) for k in range(1, len(M.status_key) + 1)]
+            okh = any(any(x and x[0] == "const" and x[1] == 200 for x in absint.walk_terms(a)) or any(absint.contains(a, q) for q in prefixes) for a in txt)
     ctx.ob("C04.4", "%s|head-uses-own-status-and-headers" % raw_print.id, "the head carries this response's status", okh, where)
 
     # respond passes `method == Head` as do_not_send_body
@@ -208,18 +210,37 @@ def run(ctx):
         x = status[0][2]
         arr = x[2][1]
         elems = [y for y in origin_walk(arr) if y[0] == "call" and re.search(r"Argument::<'\w+>::new_display", y[1])]
-        descr = []
-        for e in elems:
-            s = origin_str(e[2][0])
-            descr.append("ver.0" if "arg2.0" in s else "ver.1" if "arg2.1" in s else "status" if "arg3.0" in s else "reason" if "default_reason_phrase" in s else s)
+        # the parameters by type: the version, and whatever carries the status code (the code itself or a struct of the crate holding it)
+        ver_args = {"arg%d" % i for i in range(1, g.argc + 1) if HV in g.locals[i]["ty"]}
+        st_args = {}
+        for i in range(1, g.argc + 1):
+            ty = g.locals[i]["ty"].lstrip("&").replace("mut ", "")
+            if ty == STATUS:
+                st_args["arg%d" % i] = None
+            elif ty in facts.adts and facts.adts[ty]["kind"] == "Struct":
+                fl = [x["name"] for x in facts.adts[ty]["variants"][0]["fields"] if x["ty"] == STATUS]
+                if len(fl) == 1:
+                    st_args["arg%d" % i] = fl[0]
+        def what(o):
+            s = origin_str(o)
+            if "default_reason_phrase" in s:
+                return "reason" if any(a in s for a in st_args) else "reason-of-something-else"
+            for a in ver_args:
+                if a + ".0" in s or (a in s and s.rstrip(")*").endswith(".0")):
+                    return "ver.0"
+                if a + ".1" in s or (a in s and s.rstrip(")*").endswith(".1")):
+                    return "ver.1"
+            for a, fld in st_args.items():
+                if a in s and (fld is None or fld in origin_fields(o)) and "0" in origin_fields(o):
+                    return "status"
+            return s
+        descr = [what(e[2][0]) for e in elems]
         ok = sorted(descr) == ["reason", "status", "ver.0", "ver.1"]
         # order inside the array aggregate
         aggs = [y for y in origin_walk(arr) if y[0] == "agg" and y[1] == "array"]
         if aggs:
-            order = []
-            for e in aggs[0][2]:
-                s = origin_str(e)
-                order.append("ver.0" if "arg2.0" in s else "ver.1" if "arg2.1" in s else "status" if "arg3.0" in s else "reason" if "default_reason_phrase" in s else "?")
+            order = [what(e) for e in aggs[0][2]]
+            order = [x if x in ("ver.0", "ver.1", "status", "reason") else "?" for x in order]
             ok = order == ["ver.0", "ver.1", "status", "reason"]
             descr = order
         ctx.ob("C04.4", "%s|status-line-arguments" % g.id, "filled with the version's two numbers, the numeric status and its reason phrase, in that order", ok, g.loc(status[0][0]), str(descr))
